@@ -441,6 +441,32 @@ func (s *Sim) Setup() {
 			panic(err)
 		}
 	}
+	for _, e := range s.W.EDS {
+		if e.OldDS == "" {
+			continue
+		}
+		// a migration from a DaemonSet: its pods run on some nodes; with Foreign, unrelated pods
+		// carry overlapping labels (same selector, other owner or none; names sorting before
+		// and after the DaemonSet's pods)
+		s.ensureLegacyDS(e)
+		for i, n := range s.Store.Nodes() {
+			if i%2 == 0 {
+				s.injectLegacyPod(e, n, PodState{Kind: "ready"})
+			}
+			if s.W.Foreign {
+				s.injectForeignPod(e.NS, "aaa-other-"+n.Name, n.Name, map[string]string{"app": "legacy"}, "other-ds")
+				s.injectForeignPod(e.NS, "zzz-bare-"+n.Name, n.Name, map[string]string{"app": "legacy"}, "")
+			}
+		}
+	}
+	if s.W.Foreign {
+		for _, e := range s.W.EDS {
+			// a pod in another namespace that carries this ExtendedDaemonSet's name label
+			if nodes := s.Store.Nodes(); len(nodes) > 0 {
+				s.injectForeignPod("other-ns", "lookalike-"+e.Name, nodes[0].Name, map[string]string{edsv1.ExtendedDaemonSetNameLabelKey: e.Name}, "")
+			}
+		}
+	}
 	for _, sd := range s.W.Settings {
 		if sd.AgeSec >= 0 {
 			o := sd.Object()
